@@ -54,7 +54,10 @@ ENC = lambda q, t: stream("codec.enc", {"quick": q, "thorough": t, "search": q},
     "showcase file g0 has objects flattened 1..7 levels deep with several properties in the innermost object, flattened members are "
     "populated with probability 0.7 per level; 18% with one class of non-representable value: non-finite float, out-of-range date / "
     "timestamp, invalid UTF-8, undefined enum number, malformed decimal, empty / unresolvable Any; for 1/3 of the messages holding a j5 "
-    "Any the unpopulated bytes fields of the Any are stored as empty non-nil slices, `(meta emptybytes)`) -> ProtoToJSON; Go oracle: strict "
+    "Any the unpopulated bytes fields of the Any are stored as empty non-nil slices, `(meta emptybytes)`; bytes values: short, and 1/12 of "
+    "them 1000..5000 bytes incl. the 1 / 2 / 3 / 4 KiB boundaries +-2; map keys: 1/2 everyday, 1/4 from a list of C0 controls without a JSON "
+    "short escape (\\a \\v \\x1f \\x00), DEL, C1, U+2028/9, non-characters, tag / private-use / unassigned code points above U+FFFF, 1/4 random "
+    "runes mostly from those ranges) -> ProtoToJSON; Go oracle: strict "
     "RFC 8259 re-read, wire-format conformance against the message (C08), decode(encode(m)) == m (C01). Non-trivial = encode succeeded; "
     "distinct by root + message tree.")
 
@@ -62,7 +65,8 @@ DEC = lambda q, t: stream("codec.dec", {"quick": q, "thorough": t, "search": q},
     "canonical encoding of a random representable message, then (1/8) unchanged, (3/8) one or a random combination of the documented "
     "spelling variations (quoted/bare numbers, float respelling, base64 alphabet / padding, enum prefix, RFC3339 offset, member "
     "reordering, whitespace, explicit nulls for absent members, \\u escapes), (4/8) exactly one fault (wrong type, unparsable / "
-    "out-of-range number, invalid base64 / date / decimal / timestamp, unknown enum, unknown key, two keys in a oneof (J5 oneof object or two members of a plain proto oneof), contradicting "
+    "out-of-range number, a bare 64-bit integer in fraction / exponent syntax whose value (> 2^53, odd, or just outside the range) float64 "
+    "cannot represent, invalid base64 / date / decimal / timestamp, unknown enum, unknown key, two keys in a oneof (J5 oneof object or two members of a plain proto oneof), contradicting "
     "!type before the arm key and as the last member) at a random position (top / nested / array element / map value / oneof arm) -> JSONToProto. Go oracle: variation decodes to "
     "the same message as the canonical spelling, fault is rejected, accepted => re-encode == canonDoc(document). Non-trivial = accepted "
     "document; distinct by root + document bytes.")
